@@ -210,3 +210,127 @@ Example c17_client_close_instance_released :
     call_finished x = true /\ is_closing (cstate (csd x)) = true /\
     map crets (cths x) = [[(CHandshake, 1)]; [(CHandshake, 1)]; [(CRead, 1)]; [(CClose, 0)]]%N.
 Proof. eexists. split; [vm_compute; reflexivity|]. vm_compute. auto. Qed.
+
+(* ------------------------------------------------------------------------------------------
+   transport.Server lifecycle (Model/ServerLife.v): any number of goroutines calling Serve / Close /
+   Accept / AcceptTimeout and ReadMsg / WriteMsg / Close on server handles, the receive loop and the
+   cookie rotation goroutine, handshakes completing at any time or never; every schedule. *)
+From Hop Require Import ServerLife ServerLifeProofs ServerLifeLive.
+
+(* Serve runs once: CompareAndSwap(Ready, Serving) succeeds at most once (never again on a server
+   that already serves), so the two worker goroutines are started at most once; every other Serve
+   reports the non-ready error.  Nothing ever sends on / closes again a closed channel
+   (stopCookieRotate, pendingConnections, closeDone). *)
+Theorem c17_server_serve_runs_once : forall sv nh cap cres progs x, vreachable sv nh cap cres progs x ->
+  serve_runs (vshd x) <= 1 /\ vpanic (vshd x) = false /\
+  vwg (vshd x) = rdn (rdp (vshd x)) + ckn (ckp (vshd x)) /\ vwg (vshd x) <= 2.
+Proof.
+  intros sv nh cap cres progs x R. pose proof (vinv_reachable _ _ _ _ _ _ R) as I.
+  destruct I as [B0 [B1 _] _ _ _ _ _ _ B8 _ _ _ _ _]. repeat split; auto.
+  rewrite B8. destruct (rdp (vshd x)), (ckp (vshd x)); simpl; lia.
+Qed.
+Print Assumptions c17_server_serve_runs_once.
+
+(* Close is idempotent with the same result for every caller: the socket is closed once, every
+   Close call that has returned -- the elected one and every concurrent or later one -- reports
+   the result of that one socket close, and closeDone is published only after the state is closed. *)
+Theorem c17_server_close_same_result : forall sv nh cap cres progs x, vreachable sv nh cap cres progs x ->
+  vconn_closes (vshd x) <= 1 /\
+  (forall t r, In t (vths x) -> In (VClose, r) (vrets t) -> r = cres) /\
+  (vclose_done (vshd x) = true -> closing (vst (vshd x)) = true /\ vconn_closes (vshd x) = 1 /\
+                                  vclose_err (vshd x) = Some cres).
+Proof.
+  intros sv nh cap cres progs x R. pose proof (vinv_reachable _ _ _ _ _ _ R) as I.
+  assert (Hres : vconn_res (vshd x) = cres).
+  { clear I. destruct R as [l Hl].
+    assert (G : forall l x0 x, vrun x0 l = Some x -> vconn_res (vshd x) = vconn_res (vshd x0)).
+    { clear. induction l as [|a l IH]; intros x0 x H; simpl in H.
+      - inversion H; reflexivity.
+      - destruct (vstep x0 a) as [x1|] eqn:E; [|discriminate]. rewrite (IH _ _ H). clear IH H.
+        unfold vstep in E. destruct (vpanic (vshd x0)); [discriminate|].
+        destruct a as [i tmo| | | | ].
+        + destruct (nth_error (vths x0) i) as [t|]; [|discriminate].
+          destruct (vtstep tmo (vshd x0) t) as [[s' t']|] eqn:Es; [|discriminate]. injection E as <-. simpl.
+          unfold vtstep, with_v in Es.
+          repeat (match type of Es with
+                  | context [match ?v with _ => _ end] => destruct v
+                  end; try discriminate Es); injection Es as <- _; reflexivity.
+        + unfold with_v in E.
+          repeat (match type of E with
+                  | context [match ?v with _ => _ end] => destruct v
+                  end; try discriminate E); injection E as <-; reflexivity.
+        + unfold with_v in E.
+          repeat (match type of E with
+                  | context [match ?v with _ => _ end] => destruct v
+                  end; try discriminate E); injection E as <-; reflexivity.
+        + unfold with_v in E.
+          repeat (match type of E with
+                  | context [match ?v with _ => _ end] => destruct v
+                  end; try discriminate E); injection E as <-; reflexivity.
+        + unfold with_v in E.
+          repeat (match type of E with
+                  | context [match ?v with _ => _ end] => destruct v
+                  end; try discriminate E); injection E as <-; reflexivity. }
+    rewrite (G _ _ _ Hl). unfold vinit, vsh_init. destruct sv; reflexivity. }
+  destruct I as [B0 B1 B2 B3 B4 [B5 B5'] B6 B7 B8 B9 B11 B12 B13 B14].
+  split; [|split].
+  - destruct (closing (vst (vshd x))); simpl in B4; lia.
+  - intros t r Ht Hr. rewrite Forall_forall in B14. specialize (B14 t Ht). rewrite Forall_forall in B14.
+    specialize (B14 _ Hr). simpl in B14. congruence.
+  - intros Hd. specialize (B3 Hd). rewrite B3, Hd in *. simpl in *.
+    pose proof (gcnt_sub preconn closerA (vths x) sub1).
+    assert (Hone : vconn_closes (vshd x) = 1) by lia. rewrite B5', Hone, Hres. auto.
+Qed.
+Print Assumptions c17_server_close_same_result.
+
+(* a handle offered by Accept / AcceptTimeout is offered exactly once: the handles returned so far
+   are pairwise distinct, distinct from those still queued in pendingConnections, and each is a
+   session that finishHandshake created *)
+Theorem c17_server_accept_offers_once : forall sv nh cap cres progs x, vreachable sv nh cap cres progs x ->
+  NoDup (offered (vshd x)) /\ NoDup (pend (vshd x)) /\
+  (forall h, In h (pend (vshd x)) -> ~ In h (offered (vshd x))) /\
+  (forall h, In h (offered (vshd x)) -> h < length (hclosed (vshd x))).
+Proof.
+  intros sv nh cap cres progs x R. pose proof (vinv_reachable _ _ _ _ _ _ R) as I.
+  destruct I as [_ _ _ _ _ _ _ _ _ _ _ [B12 B12'] _ _].
+  repeat split.
+  - revert B12. generalize (pend (vshd x)). clear. induction l as [|a l IH]; simpl; auto.
+    intros N. inversion N; auto.
+  - revert B12. generalize (pend (vshd x)) (offered (vshd x)). clear. induction l as [|a l IH]; simpl; intros o N.
+    + constructor.
+    + inversion N; subst. constructor; eauto. intros Hin. apply H1. apply in_or_app. auto.
+  - intros h H1 H2. revert B12 H1 H2. generalize (pend (vshd x)) (offered (vshd x)). clear.
+    induction l as [|a l IH]; simpl; intros o N H1 H2; [tauto|]. inversion N; subst.
+    destruct H1 as [->|H1]; [apply H3; apply in_or_app; auto | eauto].
+  - intros h H. apply B12'. apply in_or_app. auto.
+Qed.
+Print Assumptions c17_server_accept_offers_once.
+
+(* Close releases everyone, no lost wake-up: once a Close has been elected, in any state where no
+   transition other than a handshake arrival or a cookie timer tick is enabled, every call of every
+   goroutine -- blocked Accept / AcceptTimeout / ReadMsg on a handle, Serve, the other Close calls --
+   has returned, both worker goroutines have ended, socket, stop signal, pendingConnections and every
+   session are closed and closeDone is published. *)
+Theorem c17_server_close_releases_everyone : forall sv nh cap cres progs x, vreachable sv nh cap cres progs x ->
+  closing (vst (vshd x)) = true -> vquiescent x ->
+  Forall (fun t => vfinished t = true) (vths x) /\ vclose_done (vshd x) = true /\ vwg (vshd x) = 0 /\
+  pend_closed (vshd x) = true /\ Forall (fun b => b = true) (hclosed (vshd x)).
+Proof.
+  intros sv nh cap cres progs x R Hc Q. pose proof (vinv_reachable _ _ _ _ _ _ R) as I.
+  destruct (close_releases_everyone x I Hc Q) as (H1 & H2 & H3 & _ & _ & _ & _ & H4 & H5). auto.
+Qed.
+Print Assumptions c17_server_close_releases_everyone.
+
+(* ... and with end-of-stream: a blocked Accept / ReadMsg can only return a handle / nothing else
+   than io.EOF (1); in particular after Close published closeDone with an empty pending queue every
+   Accept that returns reports end of stream.  Non-vacuity: a serving server with one accepted session; a
+   blocked Accept (T0), a ReadMsg blocked on handle 0 (T1), two concurrent Closes (T2, T3): everything
+   returns, Accept and ReadMsg with io.EOF, both Closes with the socket's result 7. *)
+Example c17_server_close_instance :
+  exists x, vrun (vinit true 1 4 7 [[VAccept]; [VRead 0]; [VClose]; [VClose]])
+      ([VT 0 false; VT 1 false; VT 2 false; VT 3 false; VT 2 false; VT 2 false; VReader; VCookie;
+        VT 2 false; VT 2 false; VT 2 false; VT 2 false; VT 2 false; VT 2 false;
+        VT 3 false; VT 3 false; VT 0 false; VT 1 false]) = Some x /\
+    map vrets (vths x) = [[(VAccept, 1)]; [(VRead 0, 1)]; [(VClose, 7)]; [(VClose, 7)]]%N /\
+    vst (vshd x) = VClosed.
+Proof. eexists. split; [vm_compute; reflexivity|]. vm_compute. auto. Qed.
